@@ -13,8 +13,14 @@ def drive(rep, prop, *, make_scn, judge, n_sim, n_real, real_first=True, handles
         rng = scenario_rng(rep.seed, prop + kind, j)
         scn = make_scn(rng, kind == 'real')
         out = engine.run_dag(scn)
-        if getattr(out, 'aborted', None) and not (out.aborted.startswith('spin') and handles_spin):
-            rep.inconclusive(f'harness abort: {out.aborted[:200]}', {'scenario': scn})
+        if getattr(out, 'aborted', None):
+            if out.aborted.startswith('spin') and handles_spin:
+                rep.violation(handles_spin if isinstance(handles_spin, str) else 'never-terminates',
+                              f'run_tasks never terminates / never starts runnable work: {out.aborted}',
+                              {'scenario': scn})
+                rep.case(scn_key(scn), True)
+            else:
+                rep.inconclusive(f'harness abort: {out.aborted[:200]}', {'scenario': scn})
             continue
         nontrivial = judge(rep, scn, out)
         rep.case(scn_key(scn), nontrivial)
